@@ -19,7 +19,9 @@ Inductive query :=
 | QExpand (sizes : list Z)
 | QCat (pos : nat) (others : list shape) (dim : Z)      (* the operator sits at position pos among the inputs *)
 | QGetitem (idx : list citem)                           (* one item per dimension (or one too many) *)
-| QSquare (e : entry).                                  (* square-only operation on a rectangular operator *)
+| QSquare (e : entry)                                   (* square-only operation on a rectangular operator *)
+| QCtorDense (t : shape)                                (* DenseLinearOperator(tensor of shape t) *)
+| QCtorMul (r : shape).                                 (* MulLinearOperator(this operator, operator of shape r) *)
 
 Record case := C { k_cls : string; k_a : shape; k_q : query; k_impl : verdict; k_torch : verdict }.
 
@@ -68,6 +70,8 @@ Definition spec_accepts (a : shape) (q : query) : bool :=
   | QCat pos others dim => is_some (torch_cat (insert_at pos a others) dim)
   | QGetitem idx => items_ok a idx && is_some (torch_broadcast_n [] (tensor_shapes idx))
   | QSquare _ => false
+  | QCtorDense t => 2 <=? length t          (* by the class contract: a matrix or a batch of matrices *)
+  | QCtorMul r => is_some (torch_elementwise_shape a r)
   end.
 Definition spec_result (a : shape) (q : query) : option shape :=
   match q with
@@ -147,6 +151,8 @@ Definition model_verdict (c : string) (a : shape) (q : query) : option verdict :
       Some (if is_ok (lib_cat_init (insert_at pos a others) dim) then VOkAny else VRaise)
   | QGetitem idx =>
       if check_size_of c && negb (is_ok (lib_compute_getitem_size true a (map to_item idx))) then Some VRaise else None
+  | QCtorDense t => Some (if is_ok (lib_dense_check_args t) then VOkAny else VRaise)
+  | QCtorMul r => Some (if is_ok (lib_mul_check_args a r) then VOkAny else VRaise)
   end.
 
 Definition is_raise (v : verdict) : bool := match v with VRaise => true | _ => false end.
